@@ -28,7 +28,7 @@ BUDGET = {'quick': 240, 'thorough': 3000}
 
 
 def shards(tier):
-    return e1.std_shards(tier, with_p=True, with_big=True)
+    return e1.std_shards(tier, with_p=True, with_big=True, with_hist=True)
 
 
 def light_args(length):
@@ -71,6 +71,8 @@ def check_case(case, ctr):
     # ONE list / set object refilled in place between consecutive calls (nothing else in between)
     for holder, fill in (([], lambda h, names: h.__setitem__(slice(None), names)),
                          (set(), lambda h, names: (h.clear(), h.update(names)))):
+        if case.labeling != 'asc' or case.variant not in ('fresh', 'used'):
+            break       # one labeling; the lattice-route variants do not change the query path
         for route in ('context', 'lattice'):
             for axis, length, labs in (('o', case.n, case.objs), ('p', case.m, case.props)):
                 if length > 8:
@@ -156,6 +158,19 @@ def check_case(case, ctr):
                 if got is not al[idx]:
                     bad('lattice-call-identity', q, exp, repr(got))
                     return V
+                # the same property collection as a one-shot iterable (iterator, generator, map)
+                if len(q) <= 2 or len(q) == length:
+                    ctr['calls'] += 3
+                    for form, it in (('iterator', iter(q)), ('generator', (x for x in q)),
+                                     ('map', map(str, q))):
+                        try:
+                            alt = lat(it)
+                        except Exception as e_:
+                            common.library_exception(ID, case.ident(), e_)
+                            alt = e_
+                        if alt is not got:
+                            bad('lattice-call-one-shot-iterable-' + form, q, exp, repr(alt))
+                            return V
     # closure laws on the values the library returned
     for axis, length in (('o', case.n), ('p', case.m)):
         if length > 6:
